@@ -97,6 +97,38 @@ func witnessUpdateGuards(P *Program, R *Report) {
 			ar := c.Call.Args
 			return siteOf(ar[0]) == siteOf(newU) && desc(ar[1]) == witD+".E" && strings.HasPrefix(desc(ar[2]), "call:revocation.(*Update).Verify(") && desc(ar[3]) == pkD
 		}).MustReach(fn, st)
+		if !r.Holds {
+			// the same test written out: newU^E mod N compared equal to the new accumulator's Nu
+			r = (&MustPass{P: P, NoInterproc: true, Match: func(a Atom) bool {
+				x, y, ok := parseEq(a)
+				if !ok {
+					return false
+				}
+				bo, _ := a.V.(*ssa.BinOp)
+				if bo == nil {
+					return false
+				}
+				cmp, _ := stripConv(bo.X).(*ssa.Call)
+				if cmp == nil {
+					cmp, _ = stripConv(bo.Y).(*ssa.Call)
+				}
+				if cmp == nil || bigMethod(cmp) != "Cmp" {
+					return false
+				}
+				for _, pr := range [][2]ssa.Value{{x, y}, {y, x}} {
+					e := lastWriterBefore(pr[0], cmp)
+					if e == nil || bigMethod(e) != "Exp" {
+						continue
+					}
+					ar := e.Call.Args
+					if siteOf(ar[1]) == siteOf(newU) && desc(ar[2]) == witD+".E" && desc(ar[3]) == pkD+".N" &&
+						strings.HasPrefix(desc(pr[1]), "call:revocation.(*Update).Verify(") && strings.HasSuffix(desc(pr[1]), "#0.Nu") {
+						return true
+					}
+				}
+				return false
+			}}).MustReach(fn, st)
+		}
 		R.decide(rule, kWitUpdate+":U:relation-checked", "U replaced => verify(newU, w.E, newAcc, pk) was true for the stored value", r.Holds, r.Path, P.Pos(st.Pos()))
 		var gcdIf *ssa.If
 		r = q(func(a Atom) bool {
@@ -339,26 +371,29 @@ func productMemoRule(P *Program, R *Report) {
 	}
 	R.decide(rule, kProduct+":cache", "the function has a cached path (memoisation present and inspected)", nCached >= 1, fmt.Sprintf("%d cached returns", nCached), P.Pos(fn.Pos()))
 	// stores to the cache and its key happen together
+	// (in Product or in the unexported helper that computes on a cache miss, seen with `from` bound)
 	var stProd, stKey *ssa.Store
-	for _, st := range receiverStores(fn) {
-		switch desc(st.Addr) {
-		case upd + ".product":
-			stProd = st
-		default:
-			if desc(st.Val) == "arg#1" {
-				stKey = st
+	okWin := false
+	deepVisit(P, fn, 1, func(g *ssa.Function) {
+		for _, st := range receiverStores(g) {
+			switch desc(st.Addr) {
+			case upd + ".product":
+				stProd = st
+			default:
+				if desc(st.Val) == "arg#1" {
+					stKey = st
+				}
 			}
 		}
-	}
+		allInstrs(g, func(i ssa.Instruction) {
+			if sl, ok := i.(*ssa.Slice); ok && desc(sl.X) == upd+".Events" && sl.Low != nil && sl.High == nil {
+				a, ok := affineOf(sl.Low)
+				okWin = okWin || (ok && a.String() == parseAffine("arg#1-"+upd+".Events[0].Index").String())
+			}
+		})
+	})
 	R.decide(rule, kProduct+":key-recorded", "whenever the cache is filled, the `from` it was computed for is recorded with it", stProd != nil && stKey != nil && stProd.Block() == stKey.Block(), "", P.Pos(fn.Pos()))
 	// the computed product ranges over Events[from - Events[0].Index:]
-	okWin := false
-	allInstrs(fn, func(i ssa.Instruction) {
-		if sl, ok := i.(*ssa.Slice); ok && desc(sl.X) == upd+".Events" && sl.Low != nil && sl.High == nil {
-			a, ok := affineOf(sl.Low)
-			okWin = ok && a.String() == parseAffine("arg#1-"+upd+".Events[0].Index").String()
-		}
-	})
 	R.decide(rule, kProduct+":window", "the product ranges over the events from index `from` on", okWin, "", P.Pos(fn.Pos()))
 	// Prepend
 	if pf := mustFunc(P, R, rule, "revocation.(*Update).Prepend"); pf != nil {
@@ -485,7 +520,7 @@ func accumulatorRemoveRule(P *Program, R *Report) {
 		}
 		R.decide(rule, FuncKey(fn)+":E", "the witness carries e", e == "arg#2", e, P.Pos(fn.Pos()))
 	}
-	if fn := mustFunc(P, R, rule, "revocation.verify"); fn != nil {
+	if fn := P.Func("revocation.verify"); fn != nil { // (when inlined, C09.b checks the written-out test at its use)
 		be := P.bigEval(fn)
 		mp(P, R, rule, "revocation.verify:relation", "verify is true only if u^e mod N compared equal to the accumulator's Nu", fn, AcceptTrue(0),
 			&MustPass{Match: eqTermMatcher(be, termFn("Exp", tsym("arg#0"), tsym("arg#1"), tsym(pkD+".N")), tsym("<revocation.Accumulator>.Nu"))})
